@@ -303,6 +303,18 @@ def _limit_cases(quick):
     ev(b"\x51" * 500 + b"\x6b" * 500 + b"\x51" * 500, tag="stack+alt-1000")
     ev(b"\x51" * 500 + b"\x6b" * 500 + b"\x51" * 501, tag="stack+alt-1001")
     ev(b"\x51" * 998 + b"\x6f", tag="3dup-over-1000")
+    # an initial stack (witness items) beyond the limit is only checked after each executed instruction
+    ev(b"\x75", stack=[b"\x01"] * 1001, tag="initstack-1001-drop")
+    ev(b"\x61", stack=[b"\x01"] * 1001, tag="initstack-1001-nop")
+    ev(b"\x75", stack=[b"\x01"] * 1002, tag="initstack-1002-drop")
+    ev(b"\x75\x75", stack=[b"\x01"] * 1002, tag="initstack-1002-drop-drop")
+    # CHECKMULTISIG key / signature counts are 4-byte script numbers (minimal under MINIMALDATA)
+    k1 = S.push_enc(bytes([2]) + bytes([7] * 32))
+    for nm, enc in (("min", b"\x01"), ("nonmin2", b"\x01\x00"), ("five", b"\x01\x00\x00\x00\x00"), ("four", b"\x01\x00\x00\x00")):
+        for fl in ((), ("MINIMALDATA",)):
+            ev(b"\x00\x00\x00" + k1 + S.push_enc(enc) + b"\xae", flags=fl, tag="msig-keycount-%s" % nm)      # 0 sigs: dummy, nSigs=0
+            ev(b"\x00\x00" + S.push_enc(b"\x00" * len(enc) if nm != "min" else b"") + k1 + b"\x51\xae", flags=fl,
+               tag="msig-sigcount-zero-%s" % nm)
     # element size 520/521
     for k in (520, 521):
         ev(S.push_enc(b"\x07" * k) + b"\x75\x51", tag="push-%d" % k)
